@@ -244,7 +244,24 @@ pub fn run(o: &Opts) -> Report {
     let mut acc = accepted.into_inner().unwrap();
     acc.sort();
     if let Some(dir) = &o.probes {
-        crate::det::write_probe_crates(dir, "probe_bad", &acc.iter().map(|s| (s.clone(), vec![])).collect::<Vec<_>>(), if o.thorough { 4000 } else { 150 });
+        // every accepted grammar is compile-probed with the default options and with reduced boxing
+        let mut items: Vec<(String, Vec<String>)> = vec![];
+        let cap = if o.thorough { 4000 } else { 150 };
+        let step = (acc.len() / cap).max(1);
+        for (i, s) in acc.iter().enumerate() {
+            // self-recursive and mutually recursive grammars are all kept (boxing matters for them)
+            let recursive = s.lines().any(|l| {
+                let name = l.split('=').next().unwrap_or("").trim();
+                let body = l.splitn(2, '=').nth(1).unwrap_or("");
+                !name.is_empty() && body.split(|c: char| !c.is_alphanumeric() && c != '_').any(|w| w == name)
+            });
+            let single = s.lines().count() == 1;
+            if i % step == 0 || (recursive && (o.thorough || (single && i % 3 == 0))) {
+                items.push((s.clone(), vec![]));
+                items.push((s.clone(), vec!["box_only_if_needed".to_string()]));
+            }
+        }
+        crate::det::write_probe_crates(dir, "probe_bad", &items, 1_000_000);
     }
     if let Some(dir) = &o.probes {
         // every built-in rule and every Unicode property in a one-rule grammar
